@@ -26,11 +26,11 @@ TARGETS = ["cat/x", ">=cat/x-2", "<cat/x-3", "=cat/x-2"]
 STRATS = ["upgrade", "min-install"]
 
 
-def resolve(spec, installed, target, strat, verify):
+def resolve(spec, installed, target, strat, verify, vdb_spec=None):
     src, vdb = Repo(repo_id="src"), Repo(repo_id="vdb")
     vdb.livefs = True
     src.pkgs = [mk(src, cpv, **kw) for cpv, kw in spec.items()]
-    vdb.pkgs = [mk(vdb, cpv, **spec.get(cpv, {})) for cpv in installed]
+    vdb.pkgs = [mk(vdb, cpv, **(vdb_spec or spec).get(cpv, {})) for cpv in installed]
     f = resolver.upgrade_resolver if strat == "upgrade" else resolver.min_install_resolver
     r = f([vdb], [src], verify_vdb=verify)
     failed = r.add_atoms([atom(target)])
@@ -40,10 +40,20 @@ def resolve(spec, installed, target, strat, verify):
 
 class PolicyHarness(Harness):
     def setup(self, eng):
+        fam = self.ob.get("family", "versions")
+        if fam == "cycle":
+            return {"second_user": eng.bool("second_user_of_the_atom"), "strategy": eng.int("strategy", 0, 1), "verify": eng.bool("verify_vdb"), "t_installed": eng.bool("t1_installed")}
+        if fam == "multislot":
+            return {"case": eng.int("installed_slots", 0, 2), "lower_first": eng.bool("vdb_lists_lower_slot_first"), "verify": eng.bool("verify_vdb"), "target": eng.int("target", 0, 1)}
         return {"d3": self.ob["d3"], "d2": eng.int("deps_of_x2", 0, len(VDEPS) - 1), "inst": eng.int("installed", 0, len(INSTALLED) - 1), "target": eng.int("target", 0, len(TARGETS) - 1), "strategy": eng.int("strategy", 0, 1), "verify": eng.bool("verify_vdb")}
 
     def body(self, inp):
         c = core.fix(inp) if core.ENG is not None else inp
+        fam = self.ob.get("family", "versions")
+        if fam == "cycle":
+            return self.body_cycle(c)
+        if fam == "multislot":
+            return self.body_multislot(c)
         spec = {
             "cat/x-1": {}, "cat/x-2": VDEPS[c["d2"]][1], "cat/x-3": VDEPS[c["d3"]][1], "cat/leaf-1": {},
             # cat/hated exists but an installed package blocks it when cat/enemy is installed
@@ -83,6 +93,46 @@ class PolicyHarness(Harness):
                 problems.append(f"an installed package satisfies the target, yet {merged_x} is merged")
         return out
 
+    def body_cycle(self, c):
+        # x-2 and y-1 need each other at build time and neither is installed; the older x-1 needs nothing
+        spec = {"a/t-1": {}, "a/t-2": {"depend": "a/x a/u" if c["second_user"] else "a/x"}, "a/x-2": {"depend": "a/y"}, "a/x-1": {}, "a/y-1": {"depend": "a/x"}, "a/u-1": {"depend": "a/x"}}
+        installed = ["a/t-1"] if c["t_installed"] else []
+        strat = STRATS[c["strategy"]]
+        failed, ops = resolve(spec, installed, "a/t", strat, c["verify"])
+        failed2, ops2 = resolve(spec, installed, "a/t", strat, c["verify"])
+        out = {"family": "cycle", "second_user": c["second_user"], "installed": installed, "strategy": strat, "verify_vdb": c["verify"], "failed": failed, "plan": [list(o) for o in ops], "problems": []}
+        if (failed, ops) != (failed2, ops2):
+            out["problems"].append(f"second resolution of the same inputs differs: {ops2}")
+        merged_t = [cpv for desc, cpv, live in ops if cpv.startswith("a/t-") and not live]
+        if strat == "upgrade":
+            # t-2 is resolvable (through x-1), so it is what the target must end up with
+            if failed:
+                out["problems"].append("reported failure although a/t-2 is resolvable through a/x-1")
+            elif merged_t != ["a/t-2"]:
+                out["problems"].append(f"highest resolvable match is a/t-2, merged {merged_t or 'nothing'}")
+        elif installed and (failed or merged_t):
+            out["problems"].append(f"an installed package satisfies the target, yet {merged_t or 'failure'}")
+        return out
+
+    def body_multislot(self, c):
+        have = [(1, 2), (1, 3), (2, 3)][c["case"]]
+        spec = {f"a/d-{v}": {"slot": str(v)} for v in (1, 2)}
+        vdb_spec = {f"a/d-{v}": {"slot": str(v)} for v in have}
+        installed = [f"a/d-{v}" for v in (have if c["lower_first"] else reversed(have))]
+        target = ["a/d", ">=a/d-2"][c["target"]]
+        failed, ops = resolve(spec, installed, target, "upgrade", c["verify"], vdb_spec)
+        failed2, ops2 = resolve(spec, installed, target, "upgrade", c["verify"], vdb_spec)
+        out = {"family": "multislot", "installed": installed, "target": target, "verify_vdb": c["verify"], "failed": failed, "plan": [list(o) for o in ops], "problems": []}
+        if (failed, ops) != (failed2, ops2):
+            out["problems"].append(f"second resolution of the same inputs differs: {ops2}")
+        merged = [cpv for desc, cpv, live in ops if not live]
+        # the highest match is installed (equal to or above what the repository offers): it is kept, nothing is merged
+        if failed:
+            out["problems"].append("reported failure although the highest match is installed")
+        elif merged:
+            out["problems"].append(f"a/d-{have[-1]} is installed and the highest match, yet {merged} is merged")
+        return out
+
     def prop(self, inp, obs):
         return not obs["problems"]
 
@@ -96,5 +146,6 @@ UNIVERSE = {}
 
 def obligations(tier, seed):
     obs = [{"oid": f"cat/x-3 depends on: {VDEPS[i][0]}", "d3": i, "max_paths": 100000, "max_s": 2400} for i in range(len(VDEPS))]
+    obs += [{"oid": "fallback inside a build-time cycle", "family": "cycle", "max_paths": 100000, "max_s": 2400}, {"oid": "package installed in several slots", "family": "multislot", "max_paths": 100000, "max_s": 2400}]
     UNIVERSE[tier] = {"obligations": len(obs)}
     return obs
